@@ -94,6 +94,26 @@ def run_inproc(check, sub, tier, seed, stats, quick_cases, thorough_cases, prefi
         raise v
 
 
+def patient(fn, *a, attempts=3, **kw):
+    """Runs a tools.* helper; a timeout (the machine is shared, a 10 ms link can be starved for a minute)
+    is retried instead of making the whole run inconclusive.  Returns the last result."""
+    r = None
+    for _ in range(attempts):
+        try:
+            r = fn(*a, **kw)
+        except Inconclusive as e:
+            if "rc=-9" in str(e) or "timed" in str(e):
+                r = e
+                continue
+            raise
+        if getattr(r, "timed_out", False):
+            continue
+        return r
+    if isinstance(r, Exception):
+        raise r
+    return r
+
+
 def replay_inproc(check, sub, case):
     p = subprocess.run([check.harness_bin, sub, "--replay", json.dumps(case)],
                        stdout=subprocess.PIPE, stderr=subprocess.PIPE, text=True, timeout=600)
@@ -321,7 +341,7 @@ class C12(Check):
                    "psABI overflow table for AArch64 (disagreement -> oracle_split)",
                    "R_AARCH64_CALL26/JUMP26 are not linked end-to-end (range extension thunks replace overflow; C11)",
                    "a wild failure counts as 'rejected' only if it is a diagnostic (non-zero exit, no panic/signal)"]
-    quick_cases = 640
+    quick_cases = 480
     thorough_cases = 40000
     INPROC_QUICK = 1_600_000
     INPROC_THOROUGH = 160_000_000
@@ -333,7 +353,7 @@ class C12(Check):
     @staticmethod
     def _link(linker, arch, args, d):
         extra = ["-m", "aarch64linux"] if arch == "aarch64" and linker != "ld" else []
-        return tools.link(linker, extra + args, cwd=d)
+        return patient(tools.link, linker, extra + args, cwd=d, timeout=120)
 
     def run_case(self, case, ctx):
         if "inproc" in case:
@@ -355,7 +375,7 @@ class C12(Check):
         os.makedirs(cache, exist_ok=True)
         obj = os.path.join(cache, f"{rtype}_{addend}.o".replace("-", "m"))
         if not os.path.exists(obj):
-            tools.asm(src, obj, arch=arch, cwd=cache)
+            patient(tools.asm, src, obj, arch=arch, cwd=cache)
         res = {}
         for L in linkers:
             # Absolute kinds: target is an absolute symbol with S = X - A.  PC-relative kinds: target is
